@@ -6,15 +6,15 @@ From FFCX Require Import LN Check SoundExpr SoundStmt Mono Accum.
 Import ListNotations.
 Open Scope Z_scope.
 
-(* w: allowed ranges; c: [0,nc); coordinate_dofs: [0,nx);
+(* w, c: allowed ranges; coordinate_dofs: [0,nx);
    entity_local_index: ne entries with values in [elo,ehi);
    quadrature_permutation: np entries with values in [plo,phi). *)
-Definition mk_ictx (w_allowed : list (Z * Z)) (nc nx ne elo ehi np plo phi : Z) : ictx :=
+Definition mk_ictx (w_allowed c_allowed : list (Z * Z)) (nx ne elo ehi np plo phi : Z) : ictx :=
   fun a =>
     if Pos.eqb a id_w then
       Some {| ic_allowed := w_allowed; ic_ty := DScalar; ic_range := None |}
     else if Pos.eqb a id_c then
-      Some {| ic_allowed := [(0, nc)]; ic_ty := DScalar; ic_range := None |}
+      Some {| ic_allowed := c_allowed; ic_ty := DScalar; ic_range := None |}
     else if Pos.eqb a id_x then
       Some {| ic_allowed := [(0, nx)]; ic_ty := DReal; ic_range := None |}
     else if Pos.eqb a id_e then
